@@ -15,7 +15,7 @@ def gen_tiny(rng, thorough=False):
     """<= 3 (4) offered tasks, <= 2 workers, <= 2 strategies, horizon <= 12"""
     now = rng.choice([0, 0, 2])
     nworkers = rng.choice([1, 1, 2])
-    flat = [{"res": [[0, rng.choice([1, 2, 2])]]} for _ in range(nworkers)]
+    flat = [{"res": common.split_entries(rng, [[0, rng.choice([1, 2, 2])]])} for _ in range(nworkers)]
     ntasks = rng.choice([1, 2, 3, 3, 3] + ([4] if thorough else []))
     chain = rng.random() < 0.25 and ntasks >= 2
     tasks, graphs = [], []
@@ -28,7 +28,7 @@ def gen_tiny(rng, thorough=False):
         if rng.random() < 0.12:
             wi = rng.randrange(nworkers)
             rt, res = strats[0]
-            if flat[wi]["res"][0][1] >= res[0][1] and not any(t["state"] == "X" and t["prev"][0] == wi + 1 for t in tasks):
+            if common.totals(flat[wi]["res"]).get(0, 0) >= res[0][1] and not any(t["state"] == "X" and t["prev"][0] == wi + 1 for t in tasks):
                 started = max(0, now - rng.randrange(rt))
                 td.update({"state": "X", "prev": [wi + 1, 0, started], "remaining": max(1, rt - (now - started)),
                            "deadline": now + 20})
@@ -185,7 +185,7 @@ def run(ctx):
             sig_counts[k] += 1
         sig_counts["free"] += not sigs
     ctx.cov["input_distribution"]["tiny_signatures"] = sig_counts
-    ctx.rules.append("S-opt: tiny instances (<= 3 offered tasks quick / 4 thorough, <= 2 workers, <= 2 strategies, deadlines <= now + 10, "
+    ctx.rules.append("S-opt: tiny instances (<= 3 offered tasks quick / 4 thorough, <= 2 workers (capacity sometimes split over two entries of the resource name), <= 2 strategies, deadlines <= now + 10, "
                      "sometimes a two-task chain offered as a whole or one running task), Gurobi (the planner's own MIPGap 0.1) vs `best_goodput` "
                      "(exhaustive search of feasible_clb plans in Coq); equality required unless the input matches the signature of "
                      "F11-ii / F11-iii / F11-iv / F22, where only solver <= exhaustive is required")
